@@ -97,11 +97,23 @@ impl TimeDelta {
     pub fn abs(self) -> Self {
         TimeDelta { secs: SymInt::ite(self.secs.lt(SymInt::Const(0)), SymInt::Const(0).sub(self.secs), self.secs) }
     }
+    pub const MAX: TimeDelta = TimeDelta { secs: SymInt::Const(i64::MAX / 1000) };
+    pub const MIN: TimeDelta = TimeDelta { secs: SymInt::Const(-(i64::MAX / 1000)) };
     pub fn checked_add(&self, o: &TimeDelta) -> Option<TimeDelta> {
-        Some(TimeDelta { secs: self.secs.add(o.secs) })
+        let secs = self.secs.add(o.secs);
+        if delta_in_range(secs) {
+            Some(TimeDelta { secs })
+        } else {
+            None
+        }
     }
     pub fn checked_sub(&self, o: &TimeDelta) -> Option<TimeDelta> {
-        Some(TimeDelta { secs: self.secs.sub(o.secs) })
+        let secs = self.secs.sub(o.secs);
+        if delta_in_range(secs) {
+            Some(TimeDelta { secs })
+        } else {
+            None
+        }
     }
     /// Shim-only: a symbolic number of seconds.
     pub fn from_sym_secs(secs: SymInt) -> Self {
@@ -186,16 +198,34 @@ impl fmt::Display for TimeDelta {
         write!(f, "{}s", self.secs.text())
     }
 }
+/// chrono's TimeDelta holds at most i64::MAX milliseconds; `+` / `-` panic beyond, `checked_*` return None.
+const MAX_DELTA_SECS: i64 = i64::MAX / 1000;
+
+fn delta_in_range(secs: SymInt) -> bool {
+    match secs.as_const() {
+        Some(n) => -MAX_DELTA_SECS <= n && n <= MAX_DELTA_SECS,
+        None => vrt::decide(SymInt::Const(-MAX_DELTA_SECS).le(secs).and(secs.le(SymInt::Const(MAX_DELTA_SECS)))),
+    }
+}
+
 impl Add for TimeDelta {
     type Output = TimeDelta;
     fn add(self, o: TimeDelta) -> TimeDelta {
-        TimeDelta { secs: self.secs.add(o.secs) }
+        let secs = self.secs.add(o.secs);
+        if !delta_in_range(secs) {
+            panic!("`TimeDelta + TimeDelta` overflowed");
+        }
+        TimeDelta { secs }
     }
 }
 impl Sub for TimeDelta {
     type Output = TimeDelta;
     fn sub(self, o: TimeDelta) -> TimeDelta {
-        TimeDelta { secs: self.secs.sub(o.secs) }
+        let secs = self.secs.sub(o.secs);
+        if !delta_in_range(secs) {
+            panic!("`TimeDelta - TimeDelta` overflowed");
+        }
+        TimeDelta { secs }
     }
 }
 impl Neg for TimeDelta {
